@@ -10,7 +10,9 @@ def main(tier: str) -> int:
                      "nunavut._utilities.no_default_value", "nunavut.lang._config.LanguageConfig.update",
                      "nunavut.lang._config.LanguageConfig.update_section", "nunavut.lang._config.LanguageConfig._get_config_value_raw",
                      "nunavut.lang.cpp.Language._validate_language_options", "nunavut.lang.LanguageContextBuilder.create",
-                     "nunavut.lang.LanguageContextBuilder.set_target_language_configuration_override"]
+                     "nunavut.lang.LanguageContextBuilder.set_target_language_configuration_override",
+                     "nunavut.lang.LanguageContextBuilder.add_config_files", "nunavut.lang._config.LanguageConfig.update_from_yaml_file",
+                     "nunavut.lang._language.Language.get_option"]
     M = "h_C13"
     T = 300 if tier == "quick" else 2400
     names = ["merge_ref3", "sources_unmodified3", "result_independent_of_later_source_edits", "getters_never_default",
@@ -19,6 +21,9 @@ def main(tier: str) -> int:
         names.append("merge_ref2k")
     conds = [Cond(M, f, T, 60) for f in names if f != "shorthand_group"]
     conds += [Cond(M, "shorthand_group", T, 60, dict(C13_STD=str(i))) for i in range(5)]
+    conds += [Cond(M, "shorthand_unit", T, 60, dict(C13_STD=str(i))) for i in (3, 4)]
+    conds += [Cond(M, "builder_chain", max(T, 600), 120, dict(C13_OVK=str(k), C13_ONECALL=str(o), C13_SMALL=("1" if tier == "quick" else "0")))
+              for k in (0, 1, 2) for o in (0, 1)]
     rep.bounds = dict(sources="<= 3 documents over 1 key (thorough: also 2 keys x 2 documents)", depth="<= 3",
                       value_kinds="absent | explicit int | DefaultValue(int) | map{x: explicit | default | map{y: int}}",
                       leaf_ints="unbounded symbolic", shorthand="5 std values x 256 explicit-option subsets",
@@ -26,7 +31,7 @@ def main(tier: str) -> int:
     rep.assumptions = ["documents drawn from the stated grammar only; wider/deeper maps are outside the bound",
                        "a map value counts as explicit (the code and docstring agree)",
                        "builder isolation is demanded across *different* builders only (documented), not for re-use of one builder"]
-    rep.not_covered = ["YAML parsing of override files", "more than 3 sources / 2 keys / depth 3", "CLI argument plumbing into the builder"]
+    rep.not_covered = ["YAML text parsing of override files (the parsed documents are symbolic; the built-in properties.yaml is parsed for real)", "more than 3 sources / 2 keys / depth 3", "CLI argument plumbing into the builder"]
     rep.extra["explanation"] = ("CrossHair/z3 symbolic execution of deep_update and the config accessors over symbolic document shapes "
                                 "and leaf values, compared with a reference merge over immutable snapshots; aliasing checked by "
                                 "snapshotting sources before/after and after a further merge into the result")
